@@ -33,5 +33,13 @@ def unhex : Bytes → Option Bytes
     | some x, some y, some r => some ((x <<< 4 ||| y) :: r)
     | _, _, _ => none
 
+/-- Split at every byte satisfying `sep` (the separators are dropped; always at least one piece). -/
+def splitOn (sep : UInt8 → Bool) (b : Bytes) : List Bytes :=
+  b.foldr (fun c acc =>
+    if sep c then [] :: acc
+    else match acc with
+      | [] => [[c]]
+      | l :: ls => (c :: l) :: ls) [[]]
+
 end Bytes
 end Cacache
